@@ -60,6 +60,12 @@ func genRigCase(r *rng.R) rigIn {
 	}
 	p.Config.Globs = []string{"./ctl/*.go"}
 	p.Config.EnumValidator, p.Config.TopLevelEnum, p.Config.ValidateResp = r.Chance(1, 3), r.Chance(1, 3), r.Chance(1, 3)
+	if p.Config.EnumValidator {
+		// generated `<enum>_enum` validators: a member with a character HTML would escape
+		p.Types = append(p.Types,
+			pType{Kind: "enum", Name: "Dept", Pkg: "ctl", File: "types.go", Base: "string", Consts: [][2]string{{"DeptEng", `"eng"`}, {"DeptRnd", `"r&d"`}}},
+			pType{Kind: "struct", Name: "Employee", Pkg: "ctl", File: "types.go", Fields: []pField{{Name: "Name", Type: "string", Tag: `json:"name" validate:"required"`}, {Name: "Dept", Type: "Dept", Tag: `json:"dept" validate:"required,dept_enum"`}}})
+	}
 	expectRefused := r.Chance(1, 14)
 	reqs := []rigReq{}
 	rid := 0
@@ -162,6 +168,8 @@ func genRigCase(r *rng.R) rigIn {
 					}
 					if !firstBody && r.Chance(1, 3) {
 						bt = "[]" + bt // every element is validated
+					} else if !firstBody && p.Config.EnumValidator && r.Chance(1, 2) {
+						bt = "Employee"
 					}
 					params = append(params, rigParam{name: "body", ty: bt, loc: "Body", wire: "body"})
 				case 1:
@@ -261,8 +269,15 @@ func genRigCase(r *rng.R) rigIn {
 						if strings.HasPrefix(prm.ty, "[]") {
 							q.Body = "[" + q.Body + fmt.Sprintf(`,{"name":"second","count":%d}]`, r.Intn(9))
 						}
+						if prm.ty == "Employee" {
+							q.Body = fmt.Sprintf(`{"name":"dana","dept":%q}`, rng.Pick(r, []string{"eng", "r&d"}))
+							q.BodyType = "Employee"
+						}
 						if b, ok := over["body"]; ok {
 							q.Body = b
+						}
+						if prm.ty == "Employee" {
+							q.BodyType = "Employee"
 						}
 					}
 				}
@@ -345,7 +360,15 @@ func genRigCase(r *rng.R) rigIn {
 					bodyIsSlice = true
 				}
 			}
-			if bodyKind == "json" && bodyIsSlice {
+			bodyIsEmployee := false
+			for _, prm := range params {
+				bodyIsEmployee = bodyIsEmployee || prm.ty == "Employee"
+			}
+			if bodyKind == "json" && bodyIsEmployee {
+				add(build("body-enum-member-with-ampersand", vals{"body": `{"name":"dana","dept":"r&d"}`}, "", nil))
+				add(build("body-enum-not-a-member", vals{"body": `{"name":"dana","dept":"r&amp;d"}`}, "", nil))
+				add(build("body-enum-missing", vals{"body": `{"name":"dana"}`}, "", nil))
+			} else if bodyKind == "json" && bodyIsSlice {
 				add(build("body-slice-later-element-invalid", vals{"body": `[{"name":"ok","count":1},{"count":2}]`}, "", nil))
 				add(build("body-slice-first-element-invalid", vals{"body": `[{"count":1},{"name":"ok","count":2}]`}, "", nil))
 				add(build("body-slice-empty", vals{"body": `[]`}, "", nil))
